@@ -676,6 +676,9 @@ BLOCK_SAMPLES = [
     ("Program", ["program p", "outer: do i = 1, 3", "if (i == 2) cycle outer", "inner: do", "exit inner", "end do inner", "end do outer",
                  "associate (z => i)", "z = 1", "end associate", "end program p"]),
     ("Function", ["function f(x)", "real f, x", "f = x", "return", "end function f"]),
+    ("Function", ["function tag(x)", "character tag*8", "integer x", "tag = 'a'", "end function tag"]),
+    ("Function", ["function g(n)", "integer g", "g = n", "end function g"], -1),      # the type moves into the FUNCTION statement
+    ("Function", ["integer function h(n)", "h = n", "end function h"]),
 ]
 
 
@@ -722,7 +725,9 @@ def block_structure_rule(m, rid):
     world = World(m)
     world.blocks = True
     world.ev.max_steps = 30000000
-    for cname, lines in BLOCK_SAMPLES:
+    for sample in BLOCK_SAMPLES:
+        cname, lines = sample[0], sample[1]
+        delta = sample[2] if len(sample) > 2 else 0
         r.instances += 1
         ident = "%s|%s" % (cname, lines[0])
         try:
@@ -745,7 +750,7 @@ def block_structure_rule(m, rid):
         why = None
         if left1 or left2:
             why = "%d line(s) are left unread after the block closed" % len(left1 or left2)
-        elif len([l_ for l_ in text1.split("\n") if l_.strip()]) != len(lines):
+        elif len([l_ for l_ in text1.split("\n") if l_.strip()]) != len(lines) + delta:
             why = "the regenerated program has %d lines for %d source lines (%r ...)" % (len([l_ for l_ in text1.split(chr(10)) if l_.strip()]), len(lines),
                                                                                        [l_.strip() for l_ in text1.split("\n")][:12])
         elif s1 != s2:
